@@ -330,7 +330,7 @@ func aligned(p *pair, ep *scripted) bool {
 	select {
 	case ok := <-done:
 		return ok
-	case <-time.After(5 * time.Second):
+	case <-time.After(60 * time.Second):
 		return false
 	}
 }
@@ -640,7 +640,7 @@ func runCancel(c *hx.Ctx, f []string) (impl, verdict, key string) {
 	}()
 	select {
 	case <-finished:
-	case <-time.After(10 * time.Second):
+	case <-time.After(90 * time.Second):
 		return "hung", "class=hang the operation did not return", "q"
 	}
 	if err != nil && err.Error() == "bad-op" {
